@@ -4,7 +4,7 @@ From SL Require Import Tac.
 From SL Require Import PyInt LoopSem ScreenSem ScreenMon proofs.InputLink.
 Import ListNotations.
 
-Lemma chk_all_C18 strict fresh quit nosep w e : chk_all strict fresh quit nosep w e = true -> chk_C18 w e = true.
+Lemma chk_all_C18 fresh quit nosep w e : chk_all fresh quit nosep w e = true -> chk_C18 w e = true.
 Proof.
   unfold chk_all, mchk_all. intros H. rewrite chk18_abs.
   apply andb_true_iff in H. destruct H as [H _]. apply andb_true_iff in H. destruct H as [H _].
@@ -16,11 +16,11 @@ Theorem input_requests specs specl typed quit run_empty fuel acts :
   sok chk_C18 typed (rev (trace (snd (app_run_all specs specl typed quit run_empty fuel acts)))) = true.
 Proof.
   intros HS WF. eapply sok_weaken; [apply chk_all_C18|].
-  apply (all_accepted false false (fun _ => 0) specs specl typed quit run_empty fuel acts HS WF).
+  apply (all_accepted false specs specl typed quit run_empty fuel acts HS WF).
 Qed.
 
 (* ---- every requester is answered at most once *)
-Lemma chk_all_once strict quit nosep w e : chk_all strict true quit nosep w e = true -> chk_once w e = true.
+Lemma chk_all_once quit nosep w e : chk_all true quit nosep w e = true -> chk_once w e = true.
 Proof.
   unfold chk_all, mchk_all. intros H. rewrite chk_once_abs.
   apply andb_true_iff in H. destruct H as [_ H]. cbn [negb] in H. rewrite orb_false_r in H. exact H.
@@ -34,7 +34,7 @@ Theorem answered_once specs specl typed quit run_empty fuel acts :
   sok chk_once typed (rev (trace (snd (app_run_all specs specl typed quit run_empty fuel acts)))) = true.
 Proof.
   intros HS WF NO. eapply sok_weaken; [apply chk_all_once|].
-  apply (all_accepted false true (fun _ => 0) specs specl typed quit run_empty fuel acts HS).
+  apply (all_accepted true specs specl typed quit run_empty fuel acts HS).
   apply wf_session_fresh; assumption.
 Qed.
 
